@@ -16,6 +16,7 @@ import gen_common as G
 import gen_checks as GC
 import gen_order
 import gen_order2
+import gen_plumb
 
 PID = 'C08'
 FAMILY = 'Gen'
@@ -56,7 +57,7 @@ def oracle(prog, perm):
 
 def run(ctx):
     out = common.Outcome()
-    out.proof = common.proof_status_many([(FAMILY, PROPFILE)] + gen_order.PROOFS + gen_order2.PROOFS)
+    out.proof = common.proof_status_many([(FAMILY, PROPFILE)] + gen_order.PROOFS + gen_order2.PROOFS + gen_plumb.PROOFS_ORDER)
     pg = G.ProgGen(ctx.rng, shuffle=False)
     n = ctx.scale(30, 300)
     K = ctx.scale(2, 3)
